@@ -438,6 +438,31 @@ def check(rep, F, tier, replay=None):
             if seen != {1, 2}:
                 rep.violation("BYRON-attr", "keys|%s" % sorted(seen), "Byron attribute writer emits keys %s, expected {1, 2}" % sorted(seen), {})
             rep.floor("presence states of the Byron attribute map", 4, len(maps))
+    # BECH-total / NET-table
+    rep.rule("BECH-total", "Address::to_bech32 never fails because of the network lookup: the result of network_id() is not propagated with `?` (it only selects the prefix, which does not affect the encoded data) - otherwise a Byron address of an unknown network has no Bech32 and no JSON form, and no structure containing it converts to JSON")
+    tb_ = find_fn(rep, F, "Address::to_bech32")
+    if tb_:
+        rep.inst("BECH-total")
+        fn_ = F.fns[tb_]
+        org_ = ff.Origins(F, tb_)
+        prop = False
+        for c in F.calls(tb_):
+            if (c.to or "").endswith("Try>::branch"):
+                o_ = org_.of_operand(fn_["bbs"][c.bb]["t"][3][0])
+                if any(x.startswith("call:") and x.split("@")[0].endswith("Address::network_id") for x in o_) and not any(x.startswith("call:") and "bech32::encode" in x for x in o_):
+                    prop = True
+        if prop:
+            rep.violation("BECH-total", "Address::to_bech32|network_id?", "Address::to_bech32 propagates the error of network_id(): ByronAddress::icarus_from_key(key, 42).to_address().to_bech32(None) and to_json() fail (`Unknown network 42`), so the address has no Bech32 / JSON form", {})
+    rep.rule("NET-table", "ByronAddress::network_id decides on byron_protocol_magic() (which supplies the mainnet magic when the attribute is omitted) and compares it with the protocol magic of each known network (mainnet, preprod, preview): an address that spells out the mainnet magic reports the same network as one that omits it")
+    bn_ = find_fn(rep, F, "ByronAddress::network_id")
+    if bn_:
+        rep.inst("NET-table")
+        cs_ = [c.to or "" for c in F.calls(bn_)]
+        nets = {n_ for n_ in ("mainnet", "testnet_preprod", "testnet_preview") if any(x.endswith("NetworkInfo::" + n_) for x in cs_)}
+        n_magic = sum(1 for x in cs_ if x.endswith("NetworkInfo::protocol_magic"))
+        via = any(x.endswith("ByronAddress::byron_protocol_magic") for x in cs_)
+        if not via or n_magic < 3 or len(nets) < 3:
+            rep.violation("NET-table", "ByronAddress::network_id", "ByronAddress::network_id %s and compares with %d network magic(s) of %s: a decoded Byron address whose attributes carry the explicit mainnet magic 764824073 is reported as `Unknown network` (no network id, no default Bech32, no JSON) although byron_protocol_magic() answers mainnet" % ("reads the raw attribute instead of byron_protocol_magic()" if not via else "uses byron_protocol_magic()", n_magic, sorted(nets)), {})
     # ADDR-cast: no unaudited lossy cast in address code
     import e3_arith as e3_
     rep.rule("ADDR-cast", "no lossy integer cast (narrowing / sign-changing `as`) in the address code (legacy_address, protocol_types/address.rs) outside the audited inventory: a checksum, length or header value read from the wire is compared / used at its full width (a CRC item narrowed to u32 before the comparison accepts `k * 2^32 + crc`)")
